@@ -53,7 +53,7 @@ size_t insert_nogroup(econf_file *dest_kf, struct file_entry **fe,
 size_t merge_existing_groups(econf_file *dest_kf, struct file_entry **fe, econf_file *uf,
 			     econf_file *ef, const size_t etc_start) {
   bool new_key;
-  size_t merge_length = etc_start, tmp = etc_start, added_keys = etc_start;
+  size_t merge_length = etc_start, added_keys = etc_start;
   if (uf && ef) {
     for (size_t i = 0; i <= uf->length; i++) {
       // Check if the group has changed in the last iteration
@@ -63,9 +63,12 @@ size_t merge_existing_groups(econf_file *dest_kf, struct file_entry **fe, econf_
 	  // Check for matching groups
 	  if (!strcmp(uf->file_entry[i - 1].group, ef->file_entry[j].group)) {
 	    new_key = true;
-	    for (size_t k = merge_length; k < i + tmp; k++) {
+	    // The group can have been opened before (e.g. [A] [B] [A]); so all
+	    // entries which have been merged so far have to be regarded.
+	    for (size_t k = 0; k < i + added_keys; k++) {
 	      // If an existing key is found in ef take the value from ef
-	      if (!strcmp((*fe)[k].key, ef->file_entry[j].key)) {
+	      if (!strcmp((*fe)[k].group, ef->file_entry[j].group) &&
+		  !strcmp((*fe)[k].key, ef->file_entry[j].key)) {
 		free((*fe)[k].value);
 		(*fe)[k].value = ef->file_entry[j].value ? strdup(ef->file_entry[j].value) : strdup("");
 		new_key = false;
@@ -78,8 +81,6 @@ size_t merge_existing_groups(econf_file *dest_kf, struct file_entry **fe, econf_
 	  }
 	}
 	merge_length = i + added_keys;
-	// Temporary value to reduce amount of iterations in inner for loop
-	tmp = added_keys;
       }
       if (i != uf->length)
 	(*fe)[i + added_keys] = cpy_file_entry(dest_kf, uf->file_entry[i]);
